@@ -1,6 +1,8 @@
 import H2V.Lemmas.ConnCountsPLocal
 import H2V.Lemmas.ConnCountsPIdle
 import H2V.Lemmas.ConnCountsPWitness
+import H2V.Lemmas.ConnCountsPFree
+import H2V.Lemmas.ConnCountsPQueueR
 /-
   C19 — finished streams are forgotten and an idle client connection closes itself.
   Property theorems only (lemmas: `H2V/Lemmas/ConnCountsP*.lean`, notes: `ConnCountsPNOTES.md`).
@@ -52,6 +54,41 @@ theorem pending_reset_entry_kept_recvReset (s : Streams) (id : Nat) (r : Reason)
 /-- non-vacuity: a state with a remembered reset stream -/
 example : ((({ store := { slab := [{ key := 0, id := 1, resetAt := true }], ids := [(1, 0)], nextKey := 1 } } : Streams).stream 0).resetAt) = true := by
   decide
+
+/-- **A stream that somebody still refers to is never forgotten, and forgetting one stream never
+    disturbs another.**  `transition_after(k, ..)` keeps — with the same stream id and the same
+    `ref_count` — every slab entry other than `k`, and `k` itself whenever a handle still refers to
+    it (`ref_count > 0`: `StreamRef`, `OpaqueStreamRef`, a pending accept).  So a user handle never
+    becomes a stale reference through the release path. -/
+theorem referenced_entry_is_kept (s : Streams) (k j : Nat) (b : Bool) (x : Stream) (hx : s.store.get? j = some x)
+    (hkeep : j ≠ k ∨ x.refCount ≠ 0) :
+    ∃ x', (s.transitionAfter k b).store.get? j = some x' ∧ x'.refCount = x.refCount ∧ x'.id = x.id :=
+  transitionAfter_keeps s k j b x hx hkeep
+
+/-- non-vacuity: a closed, flushed stream with one handle left -/
+example : ∃ x, ({ store := { slab := [{ key := 0, id := 1, refCount := 1, state := { inner := .closed .endStream } }], ids := [(1, 0)], nextKey := 1 } } : Streams).store.get? 0 = some x ∧ (0 ≠ 0 ∨ x.refCount ≠ 0) :=
+  ⟨_, rfl, .inr (by decide)⟩
+
+/-- **Stream storage is never reached through a stale queue entry — in every reachable state.**
+    h2 links streams into intrusive queues by slab key (`pending_send`, `pending_capacity`,
+    `pending_open`, `pending_window_updates`, `pending_reset_expired`); a queued key whose slab entry
+    is gone would make `store.resolve(key)` panic ("dangling store key").  As long as no `assert!`
+    has fired, for each of these five queues:
+    * every queued key is a live slab entry whose link flag (`is_pending_*`, resp. `reset_at`) is set;
+    * every live entry whose flag is set is in the queue (a flagged stream is not lost);
+    * no key is queued twice.
+    (`pending_accept` is not covered: its link flag is shared with the parent stream's
+    `pending_push_promises` queue.) -/
+theorem queues_hold_no_stale_keys {s : Streams} (h : Reach s) (hp : s.panicked = none) (q : QName) (hq : q ≠ .pendingAccept) :
+    (∀ k ∈ s.getQ q, ∃ x, s.store.get? k = some x ∧ x.isQueued q = true) ∧
+    (∀ k x, s.store.get? k = some x → x.isQueued q = true → k ∈ s.getQ q) ∧
+    (s.getQ q).Nodup := by
+  have hi := h.qok hp q hq
+  exact ⟨fun k hk => (hi.mem k).mp hk, fun k x hx hf => (hi.mem k).mpr ⟨x, hx, hf⟩, hi.nodup⟩
+
+/-- non-vacuity: after `send_request` the new stream sits in `pending_open` -/
+example : Reach wS1 ∧ wS1.panicked = none ∧ wS1.prio.pendingOpen = [0] :=
+  ⟨.step (.init (.client {} rfl)) (.sendRequest _ false wGet true none), by decide +kernel, by decide +kernel⟩
 
 /-- **Idle close, step 1.**  `client::Connection::poll` on a connection with no counted stream and
     no handle besides the connection's own (`!has_streams_or_other_references()`) behaves like
@@ -154,6 +191,8 @@ theorem stream_forgotten_too_early_counterexample :
 #print axioms pending_reset_entry_kept
 #print axioms pending_reset_entry_kept_popFrame
 #print axioms pending_reset_entry_kept_recvReset
+#print axioms referenced_entry_is_kept
+#print axioms queues_hold_no_stale_keys
 #print axioms idle_client_poll_starts_with_goaway
 #print axioms idle_goaway_is_no_error
 #print axioms idle_client_run
